@@ -142,7 +142,7 @@ class Graph(BaseGraph):
         # assert not self.has_edge(n, m)
 
         # Reroute all edges:
-        m_adjecent = set(self.adj_map[m])
+        m_adjecent = list(self.adj_map[m])
         for a in m_adjecent:
             self.del_edge(m, a)
             self.add_edge(n, a)
